@@ -454,6 +454,11 @@ pub fn refine_stations(
     outer_tol: f64,
     inner_tol: f64,
 ) {
+    // The (next, last) pair for which a mid-station was most recently requested. If the same pair
+    // comes up again the mid-station could not be placed (its own symmetric ray could not be
+    // created, so it was dropped) and asking for it again would repeat forever.
+    let mut retry_guard: Option<(Point2, Point2)> = None;
+
     while let Some(next) = stack.pop() {
         if let Some(last) = dest.last() {
             let n = if next.spanning_ray.dir().dot(&last.spanning_ray.dir()) < 0.0 {
@@ -468,8 +473,10 @@ pub fn refine_stations(
                 let mid = inscribed_from_spanning_ray(section, &ray, inner_tol);
                 let error = mid.interpolation_error(&n, last);
 
-                // TODO: check the distance between the centers to make sure we're not stuck
-                if error > outer_tol {
+                let pair = (n.center(), last.center());
+                let stuck = retry_guard == Some(pair);
+                if error > outer_tol && !stuck {
+                    retry_guard = Some(pair);
                     // We are out of tolerance, we need to put next back on the stack and then put
                     // the mid-ray on top of it and try again
                     stack.push(n);
